@@ -102,7 +102,7 @@ class OpSemMixin:
 class InvertSetter(OpSemMixin, LibModel):
     qual = 'symbolic:Comparator._invert_.setter'
     cls = 'Comparator'
-    props = ('C03', 'C01')
+    props = ('C03', 'C01', 'C18')
     modes = ('sound',)
 
     def modenv(self):
